@@ -164,7 +164,13 @@ class Ctx:
             key = self.fx.fn(path)["key"]
         k = (key, depth, policy)
         if k not in self._regions:
-            pol = private_only_policy(self.fx) if policy == "private" else None
+            if policy == "private":
+                pol = private_only_policy(self.fx)
+            elif isinstance(policy, tuple) and policy[0] == "private-except":
+                base, excl = private_only_policy(self.fx), policy[1]
+                pol = lambda fn: base(fn) and fn["path"] not in excl
+            else:
+                pol = None
             self._regions[k] = region_of_key(self.fx, key, depth, pol)
             self.touch_body(self._regions[k])
         b = self._regions[k]
